@@ -10,7 +10,7 @@ CONSTANTS MaxFiles, Filters, Quiets, Dev
 VARIABLES c, fi, ii, out, pc
 vars == <<c, fi, ii, out, pc>>
 
-CaseSpace == {[files |-> fs, filt |-> f, quiet |-> q] :
+CaseSpace == {[files |-> fs, fops |-> f, quiet |-> q] :
                  fs \in UNION {[1..n -> FileSpace] : n \in 1..MaxFiles}, f \in Filters, q \in Quiets}
 
 Init == c \in CaseSpace /\ fi = 1 /\ ii = 1 /\ out = Magic /\ pc = "copy"
@@ -21,11 +21,11 @@ Step ==
   /\ IF \E i \in 1..Len(c.files) : ReaderRejects(c.files[i])
      THEN out' = <<>> /\ pc' = "failed" /\ UNCHANGED <<fi, ii>>
      ELSE IF /\ "quiet_stale_errno" \in Dev /\ c.quiet /\ fi <= Len(c.files) /\ ii <= Len(CurItems)
-             /\ IsData(CurItems[ii]) /\ FilterOK(c.filt, CurItems[ii].cpu)
+             /\ IsData(CurItems[ii]) /\ FilterOK(FilterState(c.fops), CurItems[ii].cpu)
      THEN out' = <<>> /\ pc' = "ioerror" /\ UNCHANGED <<fi, ii>>
      ELSE IF fi > Len(c.files) THEN out' = out \o <<0>> \o Creator /\ pc' = "done" /\ UNCHANGED <<fi, ii>>
      ELSE IF ii > Len(CurItems) THEN fi' = fi + 1 /\ ii' = 1 /\ UNCHANGED <<out, pc>>
-     ELSE out' = CopyItem(c.filt, out, CurItems[ii]) /\ ii' = ii + 1 /\ UNCHANGED <<fi, pc>>
+     ELSE out' = CopyItem(FilterState(c.fops), out, CurItems[ii]) /\ ii' = ii + 1 /\ UNCHANGED <<fi, pc>>
   /\ UNCHANGED c
 Next == Step
 Spec == Init /\ [][Next]_vars
@@ -50,10 +50,23 @@ CoverInit == c \in CaseSpace /\ fi = 1 /\ ii = 1 /\ out = Magic /\ pc = "gen"
 CoverNext == pc = "gen" /\ PrintT(<<"TR", ToJson(CaseOut(c))>>) /\ pc' = "printed" /\ UNCHANGED <<c, fi, ii, out>>
 CoverSpec == CoverInit /\ [][CoverNext]_vars
 
+\* filter operations (FilterList.tla): one file with a record of each family a b c d and an unlisted one (plus an entry
+\* record), every operation sequence of FPatterns / BigPatterns
+FiltFile(fams) == Encode([k \in 1..(Len(fams) + 1) |->
+                            IF k > Len(fams) THEN [k |-> "E", addr |-> 4660]
+                            ELSE [k |-> "D", cpu |-> fams[k], seg |-> SegCode, gran |-> 1, start |-> 16 * k, data |-> Pat(k, 2),
+                                  short |-> FALSE]], <<65, 83>>)
+FiltCases == {[files |-> <<FiltFile(<<81, 97, 112, 17, 200>>)>>, fops |-> fo, quiet |-> FALSE] : fo \in FPatterns(81, 97, 112, 17, 200)}
+             \cup {[files |-> <<FiltFile(<<1, 50, 100, 7, 93, 200>>)>>, fops |-> fo, quiet |-> FALSE] : fo \in BigPatterns}
+FiltInit == c \in FiltCases /\ fi = 1 /\ ii = 1 /\ out = Magic /\ pc = "gen"
+FiltSpec == FiltInit /\ [][CoverNext]_vars
+
 \* random wide cases: <= 4 files of <= 4 items; the item list is grown one item per step in `out`-free variables
-SimFilters == {<<>>, <<81>>, <<97, 112>>, <<9>>, <<59, 49, 200>>, <<129>>, <<2>>}
+SimFilters == {<<>>, <<FA(<<81>>)>>, <<FA(<<97, 112>>)>>, <<FA(<<9>>)>>, <<FA(<<59, 49, 200>>)>>, <<FA(<<129>>)>>, <<FA(<<2>>)>>,
+               <<FA(<<81, 97, 112>>), FC(<<81>>)>>, <<FA(<<81, 97, 112, 9>>), FC(<<97>>)>>, <<FEA(<<81, 97, 112>>), FC(<<112>>)>>,
+               <<FEA(<<59, 81, 9>>), FEC(<<59>>), FA(<<112>>)>>, <<FA(<<81, 97>>), FC(<<81, 97>>)>>, <<FA(<<97, 112, 81>>), FC(<<97>>), FA(<<97>>)>>}
 \* during generation c.files holds ITEM LISTS; they are encoded when the case is finished
-SimInit == c = [files |-> <<<<>>>>, filt |-> <<>>, quiet |-> FALSE] /\ fi = 0 /\ ii = 0 /\ out = <<>> /\ pc = "sim"
+SimInit == c = [files |-> <<<<>>>>, fops |-> <<>>, quiet |-> FALSE] /\ fi = 0 /\ ii = 0 /\ out = <<>> /\ pc = "sim"
 SimNext ==
   /\ pc = "sim" /\ ii' = ii + 1 /\ UNCHANGED <<fi, out>>
   /\ LET nf == Len(c.files) IN
@@ -61,7 +74,7 @@ SimNext ==
         /\ UNCHANGED pc
         /\ \/ \E sh \in SimShapes : Len(c.files[nf]) < 4 /\ c' = [c EXCEPT !.files[nf] = Append(@, MkItem(sh, ii + 1))]
            \/ nf < 4 /\ c' = [c EXCEPT !.files = Append(@, <<>>)]
-     ELSE IF ii = 7 THEN UNCHANGED pc /\ \E f \in SimFilters, q \in BOOLEAN : c' = [c EXCEPT !.filt = f, !.quiet = q]
+     ELSE IF ii = 7 THEN UNCHANGED pc /\ \E f \in SimFilters, q \in BOOLEAN : c' = [c EXCEPT !.fops = f, !.quiet = q]
      ELSE pc' = "emit" /\ c' = [c EXCEPT !.files = [i \in 1..nf |-> Encode(c.files[i], <<65, 83, 32, 49>>)]]
 SimSpec == SimInit /\ [][SimNext]_vars
 SimDump == pc = "emit" => PrintT(<<"BEH", ToJson(CaseOut(c))>>)
@@ -71,6 +84,8 @@ Q_Both    == BOOLEAN
 Q_No      == {FALSE}
 D_None    == {}
 D_Quiet   == {"quiet_stale_errno"}
-F_Small   == {<<>>, <<81>>, <<112, 129>>}
-F_Two     == {<<>>, <<112>>}
+F_Small   == {<<>>, <<FA(<<81>>)>>, <<FA(<<112, 129>>)>>}
+F_Two     == {<<>>, <<FA(<<112>>)>>}
+F_Ops     == {<<FA(<<81, 112, 129>>), FC(<<81>>)>>, <<FA(<<81, 112, 129>>), FC(<<112>>)>>, <<FEA(<<129, 81>>), FC(<<129>>)>>}
+F_SmallOps == F_Small \cup F_Ops
 =============================================================================
